@@ -113,7 +113,7 @@ def h_rest_glue_internal_sock_server_go : Nat := 0xaa216abd9a897380
 def h_rest_glue_internal_dag_executor_executor_go : Nat := 0xff3866fd225f7261
 
 /-- hash of the normalised skeleton of * (internal/dag/executor/command.go) -/
-def h_rest_glue_internal_dag_executor_command_go : Nat := 0x137f6e1407c694ea
+def h_rest_glue_internal_dag_executor_command_go : Nat := 0xb59f538fbe36a633
 
 /-- hash of the normalised skeleton of * (main.go) -/
 def h_rest_glue_main_go : Nat := 0x2a82391a7e65a974
